@@ -335,6 +335,14 @@ def call_sites(res: Res):
     known = set(M.staticFallbackData) | set(M.specialFallbacks)
     if known != set(K.ATTR_TYPES):
         problems.append(f"fallback tables and contract variants differ: only in code {sorted(known - set(K.ATTR_TYPES))}, only in contracts {sorted(set(K.ATTR_TYPES) - known)}")
+    # the bare intListToNum contract (used where one caller has several signatures) claims nothing beyond the proved variants:
+    # every ensures clause is `implies(start == s and length == l, <the variant's clause>)`, its requires lists exactly the signatures
+    from pyvc.api import CONTRACTS
+
+    bare = CONTRACTS[f"{K.MOD}:intListToNum"]
+    want = {f"{s_}+{l_}:{k}": f"implies(start == {s_} and length == {l_}, {e})" for s_, l_ in K.SIGNATURES for k, e in CONTRACTS[f"{K.MOD}:intListToNum#{s_}+{l_}"].ensures.items()}
+    if dict(bare.ensures) != want or bare.requires != [" or ".join(f"(start == {s_} and length == {l_})" for s_, l_ in K.SIGNATURES)] or bare.props:
+        problems.append("the bare intListToNum contract is not the conjunction of the proved per-signature variants")
     res.oblig(not problems)
     for p in problems:
         res.r["checker_errors"].append("C16 call-site coverage: " + p)
